@@ -119,14 +119,15 @@ class SV:
        'gen'   bags: [Bag]    'func'  (FuncInfo/Lambda, closure)   'py' python constant   'cls' ClassInfo
        'bytes' (t: SeqItems of VInt, n: Int)
     wb: optional write-back closure (state, new SV) for in-place mutation of containers."""
-    __slots__ = ("k", "t", "cls", "x", "wb")
+    __slots__ = ("k", "t", "cls", "x", "wb", "orig")
 
-    def __init__(self, k, t=None, cls=None, x=None, wb=None):
+    def __init__(self, k, t=None, cls=None, x=None, wb=None, orig=None):
         self.k = k
         self.t = t
         self.cls = cls
         self.x = x
         self.wb = wb
+        self.orig = orig      # orig(state) -> current value of the container this value was read from
 
     def __repr__(self):
         return "SV(%s,%s%s)" % (self.k, self.t, "," + str(self.cls) if self.cls else "")
